@@ -146,7 +146,7 @@ def directed(rng, n):
         counter = [0]
         p, cur = mp.gen_mprog(rng, rng.choice([0, 1, 2, 3]), counter, allow_binary=rng.random() < 0.3, p_xfer=0.2, p_mat=0.1)
         kind = rng.choice(["xfer_mat", "doomed_chain", "doomed_xfer", "identity", "nested_mat", "xfer_ops_mat", "join_sides",
-                           "mat_over_pruned_chain"])
+                           "mat_over_pruned_chain", "identity_chain"])
         dest = rng.choice(mp.ENGINES)
         counter[0] += 1
         m1 = counter[0]
@@ -154,7 +154,22 @@ def directed(rng, n):
         m2 = counter[0]
         counter[0] += 1
         lid = counter[0]
-        if kind == "mat_over_pruned_chain":
+        if kind == "identity_chain":
+            # a chain one of whose branches is the join identity (one row, no columns): nothing may be pruned
+            eng = rng.choice(mp.ENGINES)
+            ident = ("leaf", lid, eng, [], [{}], (1, 1), "identity")
+            counter[0] += 1
+            other = ("leaf", counter[0], eng, [], [{}] * rng.choice([0, 1, 2, 3]), (0, None))
+            if rng.random() < 0.5:
+                counter[0] += 1
+                k1 = enc.K(1)
+                base = ("leaf", counter[0], eng, [k1], [{k1: v} for v in (1, 2, 3)], (0, None))
+                other = ("un", ("proj", []), mp.DEFAULT, ("un", ("sel", ("cmp", "gt", ("ref", k1), ("lit", rng.choice([0, 1, 5])))), mp.DEFAULT, base))
+            p = ("chain", ident, other) if rng.random() < 0.5 else ("chain", other, ident)
+            p = ("xfer", rng.choice([e for e in mp.ENGINES if e != eng]), p)
+            if rng.random() < 0.5:
+                p = ("mat", m1, p)
+        elif kind == "mat_over_pruned_chain":
             # a materialization directly above a chain one of whose branches the Processor prunes as statically empty
             p = ("xfer", dest, p)
             if rng.random() < 0.7 and cur:
